@@ -19,7 +19,8 @@ import (
 //	maprange  `range` over a map-typed expression            detail = the expression
 //	go        `go` statement                                 detail = the call
 //	select    `select` statement
-//	time      time.Now/Since/Until/After/Tick/Sleep/...      detail = function name
+//	time      time.Now/Since/Until/After/Tick/Sleep/Local/LoadLocation/...   detail = function name
+//	timezone  a method of time.Time whose result depends on the value's location (Format, String, Local, Date, ...)
 //	rand      any use of math/rand, math/rand/v2, crypto/rand
 //	os        any use of package os                          detail = identifier
 //	float     arithmetic/comparison on float32/float64, or conversion to them   detail = expression
@@ -43,7 +44,25 @@ func inNonDetScope(p *packages.Package, file string) bool {
 }
 
 var timeFuncs = map[string]bool{"Now": true, "Since": true, "Until": true, "After": true, "AfterFunc": true,
-	"Tick": true, "NewTicker": true, "NewTimer": true, "Sleep": true}
+	"Tick": true, "NewTicker": true, "NewTimer": true, "Sleep": true,
+	// the host's time zone
+	"Local": true, "LoadLocation": true, "FixedZone": true}
+
+// methods of time.Time whose result depends on the value's location (a time built by time.Unix carries the HOST's zone)
+var timeZoneMethods = map[string]bool{"Format": true, "AppendFormat": true, "String": true, "GoString": true, "Local": true,
+	"Zone": true, "ZoneBounds": true, "Location": true, "MarshalJSON": true, "MarshalText": true, "Clock": true, "Date": true,
+	"Hour": true, "Day": true, "Weekday": true, "YearDay": true, "Month": true, "Year": true, "Minute": true, "ISOWeek": true, "Truncate": false}
+
+func isTimeTime(t types.Type) bool {
+	if t == nil {
+		return false
+	}
+	if p, ok := t.(*types.Pointer); ok {
+		t = p.Elem()
+	}
+	n, ok := t.(*types.Named)
+	return ok && n.Obj() != nil && n.Obj().Pkg() != nil && n.Obj().Pkg().Path() == "time" && n.Obj().Name() == "Time"
+}
 
 func isFloat(t types.Type) bool {
 	if t == nil {
@@ -104,6 +123,11 @@ func genNonDet(w *World) string {
 			case *ast.CallExpr:
 				if tv, ok := info.Types[x.Fun]; ok && tv.IsType() && isFloat(tv.Type) {
 					add("float", exprString(x), x.Pos())
+				}
+				if sel, ok := x.Fun.(*ast.SelectorExpr); ok && timeZoneMethods[sel.Sel.Name] {
+					if tv, ok := info.Types[sel.X]; ok && isTimeTime(tv.Type) {
+						add("timezone", "Time."+sel.Sel.Name, x.Pos())
+					}
 				}
 			}
 			return true
